@@ -207,7 +207,7 @@ def run_case(layout: list[str], ns: str, cwd_kind: str, mp_kind: str, mp_via: st
              keep: bool = False) -> dict[str, Any]:
     """One layout under one configuration; returns every run's observations.
 
-    ns: off | on | epb.  cwd_kind: parent | root | inside.  mp_kind: none | root | sub | rootrel.
+    ns: off | on | epb.  cwd_kind: parent | root | inside.  mp_kind: none | root | sub | rootrel | shadow.
     mp_via: env (MYPYPATH) | config (mypy_path in a config file).  import_mode: assigned | candidates."""
     global _case_root
     import random
@@ -244,6 +244,28 @@ def run_case(layout: list[str], ns: str, cwd_kind: str, mp_kind: str, mp_via: st
         mp_val = None
         if mp_dir:
             mp_val = os.path.relpath(mp_dir, cwd) if mp_kind == "rootrel" else mp_dir
+        if mp_kind == "shadow":
+            # a second search root, FIRST on the path, that holds only partial __init__ chains for directories of the
+            # layout: `shadow/X/Y/__init__.py` (and no shadow/X/__init__.py).  No python module of the layout lives there.
+            # Only directories X/Y whose parent X is a regular package in the real root: there the documented rule
+            # ("the candidate whose chain has the highest __init__ wins") makes the real root's X/Y the winner, so the
+            # shadow root must never matter.
+            has_init = {os.path.dirname(p) for p in lay if os.path.basename(p) in ("__init__.py", "__init__.pyi")}
+            dirs = sorted({os.path.dirname(p) for p in lay if p.count("/") == 2 and os.path.dirname(os.path.dirname(p)) in has_init})
+            shadow = os.path.join(case_dir, "shadowroot")
+            made = False
+            for dd in dirs:
+                if dd not in has_init:
+                    os.makedirs(os.path.join(shadow, dd), exist_ok=True)
+                    with open(os.path.join(shadow, dd, "__init__.py"), "w") as f:
+                        f.write("")
+                    made = True
+            mp_dir = root
+            if made:
+                mp_val = shadow + os.pathsep + root
+                out["shadow_root"] = True
+            else:
+                mp_val = root
         flags = {"off": ["--no-namespace-packages"], "on": ["--namespace-packages"],
                  "epb": ["--namespace-packages", "--explicit-package-bases"]}[ns]
         env: dict[str, str] = {}
